@@ -1,6 +1,6 @@
 \* Bucket-layer refinement, deeper: three block heights, two lease identifiers, longer clock.
 CONSTANTS
-  GraphIds = {1,2,3,4,5,6,7,8,9,10,11}
+  GraphIds = {1,2,3,4,5,6,7,8,9,10,11,12}
   MaxTip = 3
   Mat = 2
   LeaseIds = {1,2}
